@@ -166,7 +166,8 @@ def run_shard(spec):
             counters["schema:boosted-rekeyed-defaults"] += 1
         sm = refload.compile_schema(ast)
         texts = [gen.gen_text(rng, sm, f) for f in (0, 0, 0, 1, 1, 2)]
-        pkgbase = "zcvp%d_%d_" % (spec["seed"] % 1000, i)
+        # package names come round again within a process, each time with other contents
+        pkgbase = "zcvp%d_%d_" % (spec["seed"] % 1000, i % 7 if i % 2 else i)
         comp = compose.compose(rng, ast, pkgbase)
         case0 = {"schema": ast, "main_xml": comp.main_xml, "files": dict(comp.files),
                  "packages": {k: dict(v) for k, v in comp.packages.items()}, "features": sorted(comp.features)}
